@@ -355,7 +355,10 @@ func checkSidxN(l *layout, f *mp4.File, nz bool, twice bool) {
 	}
 	var starts []uint64
 	var durs []uint64
+	// earliest presentation time: that of the first sample of the reference track in the first segment, whichever
+	// fragment / traf / trun holds it; a track that has trafs but no sample there: its first base time; else 0
 	var firstPT int64
+	havePT, haveBase := false, false
 	for si, s := range f.Segments {
 		var first mp4.Box
 		switch {
@@ -379,15 +382,23 @@ func checkSidxN(l *layout, f *mp4.File, nz bool, twice bool) {
 		starts = append(starts, pos)
 		// ground-truth duration of the reference track in this segment
 		d := uint64(0)
-		for fi, fr := range s.Fragments {
+		for _, fr := range s.Fragments {
 			if fr.Moof == nil {
 				continue
 			}
 			e := l.els[idx[fr.Moof]]
 			for _, tr := range e.trafs {
 				if tr.track == refTrack(l) {
-					if si == 0 && fi == 0 {
-						firstPT = int64(tr.base) + int64(tr.cto0)
+					if si == 0 && !havePT {
+						ns := 0
+						for _, trun := range tr.truns {
+							ns += len(trun)
+						}
+						if ns > 0 {
+							firstPT, havePT = int64(tr.base)+int64(tr.cto0), true
+						} else if !haveBase {
+							firstPT, haveBase = int64(tr.base), true
+						}
 					}
 					for _, trun := range tr.truns {
 						for _, x := range trun {
